@@ -5,7 +5,8 @@
             Model/C11_Check.v (the comparisons evaluated by the correspondence shards). *)
 From Coq Require Import Reals QArith Qreals Sorting.Sorted Sorting.Permutation.
 From Coq Require Import PrimFloat.
-From PV Require Import Lib.Common Model.C11_Map Model.C11_MapFn Model.C11_Check Proofs.C11_Map Proofs.C11_MapFn Proofs.C11_Xo Proofs.C11_Float.
+From PV Require Import Lib.Common Model.C11_Map Model.C11_MapFn Model.C11_Check Proofs.C11_Map Proofs.C11_MapFn Proofs.C11_Xo Proofs.C11_Float
+  Gen.C11_Kernel Proofs.C11_Kernel Proofs.C11_Laws.
 
 (** * map functions *)
 (** both map functions send 0 to 0, [0,inf) into [0,1/2), are strictly increasing, tend to 1/2 at infinity, are undone
@@ -250,3 +251,134 @@ Example C11_hyps_satisfiable : (wf_map (gm_rows wit_rows) /\ is_congruent (gm_ro
   /\ Forall (fun p : Z * PrimFloat.float => finite64 (snd p)) [(5%Z, 0%float); (9%Z, 0.25%float); (20%Z, 0.5%float)]
   /\ (wf_map wit_rd /\ two_markers (rd_rows wit_rd) /\ is_congruent wit_rd = false /\ is_congruent (rd_rows wit_rd) = true).
 Proof. split; [exact hyps_satisfiable | split; [repeat constructor; reflexivity | exact wit_rd_wf]]. Qed.
+
+Local Open Scope Z_scope.
+
+(** * The kernel expressions and call shapes of the CURRENT source (Gen/C11_Kernel.v is regenerated from
+      StandardGeneticMap.py, ExtendedGeneticMap.py, HaldaneMapFunction.py, KosambiMapFunction.py, DenseGeneticMappableMatrix.py and
+      util.py on every run by harness/translate/c11_kernel.py) are the ones the model uses: default sort keys, group metadata,
+      congruence comparison, spline mask / knots / assume_sorted, the KeyError -> NaN branch, sequential difference and its
+      operand order, pairwise |gi - gj| with +inf across chromosomes and the row / column slice bounds, the call shapes of
+      gdist1p / gdist2p / interp_xoprob, and the centiMorgan factor.  A changed expression makes this file fail to build. *)
+Theorem C11_kernel_is_model :
+  (forall a b, key_leb a b = k_std_key_leb (r_chr a) (r_phy a) (r_gen a) (r_chr b) (r_phy b) (r_gen b)
+            /\ key_leb a b = k_ext_key_leb (r_chr a) (r_phy a) (r_gen a) (r_chr b) (r_phy b) (r_gen b)) /\
+  (forall chrs, let u := (map fst (runs chrs), starts 0 (map snd (runs chrs)), map snd (runs chrs)) in
+     group_meta chrs = k_std_group_meta (fst (fst u)) (snd (fst u)) (snd u) /\ group_meta chrs = k_ext_group_meta (fst (fst u)) (snd (fst u)) (snd u)) /\
+  (forall p r t, congruence_from (Some p) (r :: t) = (if r_chr p =? r_chr r then k_std_congr (r_gen p) (r_gen r) else k_std_congr_first) :: congruence_from (Some r) t
+              /\ congruence_from (Some p) (r :: t) = (if r_chr p =? r_chr r then k_ext_congr (r_gen p) (r_gen r) else k_ext_congr_first) :: congruence_from (Some r) t) /\
+  (forall rows c, spline_knots rows c = (if k_std_spline_assume_sorted then (fun l => l) else sort_knots)
+                                          (map (fun r => k_std_spline_knot (r_phy r) (r_gen r)) (filter (fun r => k_std_spline_mask (r_chr r) c) rows))
+               /\ spline_knots rows c = (if k_ext_spline_assume_sorted then (fun l => l) else sort_knots)
+                                          (map (fun r => k_ext_spline_knot (r_phy r) (r_gen r)) (filter (fun r => k_ext_spline_mask (r_chr r) c) rows))) /\
+  (forall rows c x, interp_pos rows (c, x) = k_std_interp_pos ext (spline_dict rows) NaN PInf c x
+                 /\ interp_pos rows (c, x) = k_ext_interp_pos ext (spline_dict rows) NaN PInf c x) /\
+  (forall pc pg c g ct gt,
+     gdist1g_from (Some (pc, Fin pg)) (c :: ct) (Fin g :: gt)
+       = (if pc =? c then Fin (k_std_gdist1_q g pg) else k_std_gdist1_start ext PInf NaN) :: gdist1g_from (Some (c, Fin g)) ct gt
+  /\ gdist1g_from (Some (pc, Fin pg)) (c :: ct) (Fin g :: gt)
+       = (if pc =? c then Fin (k_ext_gdist1_q g pg) else k_ext_gdist1_start ext PInf NaN) :: gdist1g_from (Some (c, Fin g)) ct gt) /\
+  (forall ci gi cj gj, gdist2 ci (Fin gi) cj (Fin gj) = (if k_std_gdist2_across ci cj then PInf else Fin (k_std_gdist2_q gi gj))
+                    /\ gdist2 ci (Fin gi) cj (Fin gj) = (if k_ext_gdist2_across ci cj then PInf else Fin (k_ext_gdist2_q gi gj))) /\
+  (forall chrs gens rst rsp cst csp,
+     gdist2g chrs gens rst rsp cst csp = gdist2g_sliced (k_std_gdist2_rows rst rsp cst csp, k_std_gdist2_cols rst rsp cst csp) chrs gens
+  /\ gdist2g chrs gens rst rsp cst csp = gdist2g_sliced (k_ext_gdist2_rows rst rsp cst csp, k_ext_gdist2_cols rst rsp cst csp) chrs gens) /\
+  (forall rows query ast asp,
+     gdist1p rows query ast asp = k_std_gdist1p _ _ _ _ (interp_arrays rows) gdist1g (map fst query) (map snd query) ast asp
+  /\ gdist1p rows query ast asp = k_ext_gdist1p _ _ _ _ (interp_arrays rows) gdist1g (map fst query) (map snd query) ast asp) /\
+  (forall rows query rst rsp cst csp,
+     gdist2p rows query rst rsp cst csp = k_std_gdist2p _ _ _ _ (interp_arrays rows) gdist2g (map fst query) (map snd query) rst rsp cst csp
+  /\ gdist2p rows query rst rsp cst csp = k_ext_gdist2p _ _ _ _ (interp_arrays rows) gdist2g (map fst query) (map snd query) rst rsp cst csp) /\
+  (forall k rows variants, let sv := sort_pairs variants in
+     k_gmat_interp_xoprob _ _ _ _ (interp_arrays rows) (rprob1g_of k) (map fst sv) (map snd sv) = (gmat_genpos rows variants, xoprob k rows variants)) /\
+  (forall x, k_cM2d x = cM2d_f x /\ k_std_genpos_cM x = stored_gen_f true x /\ k_ext_genpos_cM x = stored_gen_f true x).
+Proof. exact kernel_is_model. Qed.
+Print Assumptions C11_kernel_is_model.
+
+(** the bodies of mapfn / invmapfn of both map-function classes, as generated, are the real functions of the model ... *)
+Theorem C11_kernel_mapfn_is_model : forall k x, k_mapfn k x = mapfn k x /\ k_invmapfn k x = invmapfn k x.
+Proof. exact (fun k x => conj (k_mapfn_model k x) (k_invmapfn_model k x)). Qed.
+Print Assumptions C11_kernel_mapfn_is_model.
+
+(** ... and obey the defining laws themselves *)
+Theorem C11_kernel_mapfn_laws : forall k : mapkind,
+  (k_mapfn k 0 = 0 /\
+  (forall d, 0 <= d -> 0 <= k_mapfn k d < 1 / 2) /\
+  (forall d1 d2, d1 < d2 -> k_mapfn k d1 < k_mapfn k d2) /\
+  (forall eps, 0 < eps -> exists D, 0 <= D /\ forall d, D <= d -> 1 / 2 - eps < k_mapfn k d < 1 / 2) /\
+  (forall d, k_invmapfn k (k_mapfn k d) = d) /\
+  (forall r, 0 <= r < 1 / 2 -> k_mapfn k (k_invmapfn k r) = r /\ 0 <= k_invmapfn k r))%R.
+Proof. exact kernel_mapfn_laws. Qed.
+Print Assumptions C11_kernel_mapfn_laws.
+
+(** every rprob method of both map functions is the map function of the distance method of the same name *)
+Theorem C11_kernel_rprob_shapes : forall (C X Dst Pr : Type) (mf : Dst -> Pr) (d1g d2g d1p d2p : C -> X -> Dst) c x,
+  (k_haldane_rprob1g C X Dst Pr mf d1g d2g d1p d2p c x = mf (d1g c x) /\ k_haldane_rprob2g C X Dst Pr mf d1g d2g d1p d2p c x = mf (d2g c x) /\
+   k_haldane_rprob1p C X Dst Pr mf d1g d2g d1p d2p c x = mf (d1p c x) /\ k_haldane_rprob2p C X Dst Pr mf d1g d2g d1p d2p c x = mf (d2p c x)) /\
+  (k_kosambi_rprob1g C X Dst Pr mf d1g d2g d1p d2p c x = mf (d1g c x) /\ k_kosambi_rprob2g C X Dst Pr mf d1g d2g d1p d2p c x = mf (d2g c x) /\
+   k_kosambi_rprob1p C X Dst Pr mf d1g d2g d1p d2p c x = mf (d1p c x) /\ k_kosambi_rprob2p C X Dst Pr mf d1g d2g d1p d2p c x = mf (d2p c x)).
+Proof. exact k_rprob_shapes. Qed.
+Print Assumptions C11_kernel_rprob_shapes.
+
+(** distance laws about the generated kernels: pairwise symmetric, zero on the diagonal, infinite across chromosomes; the
+    sequential kernel (current - previous) equals the pairwise one for ordered positions *)
+Theorem C11_kernel_gdist2_laws : forall ci gi cj gj,
+  let d a x b y := if k_std_gdist2_across a b then PInf else Fin (k_std_gdist2_q x y) in
+  ext_equiv (d ci gi cj gj) (d cj gj ci gi) /\ ext_equiv (d ci gi ci gi) (Fin 0) /\ (ci <> cj -> d ci gi cj gj = PInf).
+Proof. exact kernel_gdist2_laws. Qed.
+Print Assumptions C11_kernel_gdist2_laws.
+
+Theorem C11_kernel_gdist1_is_gdist2 : forall g pg, (pg <= g)%Q -> (k_std_gdist1_q g pg == k_std_gdist2_q pg g)%Q /\ (k_ext_gdist1_q g pg == k_ext_gdist2_q pg g)%Q.
+Proof. exact kernel_gdist1_is_gdist2. Qed.
+Print Assumptions C11_kernel_gdist1_is_gdist2.
+
+(** on a map flagged congruent consecutive markers of a chromosome satisfy the generated comparison *)
+Theorem C11_kernel_congruent_pairs : forall l p r, is_congruent (p :: r :: l) = true -> r_chr p = r_chr r ->
+  k_std_congr (r_gen p) (r_gen r) = true /\ k_ext_congr (r_gen p) (r_gen r) = true.
+Proof. exact kernel_congruent_pairs. Qed.
+Print Assumptions C11_kernel_congruent_pairs.
+
+(** non-vacuity of the hypotheses of the two kernel theorems above *)
+Example C11_kernel_hyps_satisfiable :
+  is_congruent [mkRow 1 10 0 []; mkRow 1 20 (1 # 2) []; mkRow 2 5 (1 # 4) []] = true /\ r_chr (mkRow 1 10 0 []) = r_chr (mkRow 1 20 (1 # 2) [])
+  /\ ((1 # 4) <= (1 # 2))%Q.
+Proof. repeat split; discriminate. Qed.
+
+(** * Further laws (Proofs/C11_Laws.v) *)
+(** ANY selection of markers — select(indices | mask), remove(indices | slice), ExtendedGeneticMap.prune(nt, M) — of a map without
+    duplicated positions that keeps two markers per chromosome is a well-formed map on which interpolation (the spline is rebuilt
+    from the remaining markers) is exact at the remaining markers, lies on the chord between consecutive remaining markers and
+    reports absent chromosomes as missing *)
+Theorem C11_interp_after_any_selection : forall rows mask, distinct_pos rows -> two_markers (select_rows rows mask) ->
+  let rows' := select_rows rows mask in
+  wf_map rows' /\
+  Forall2 ext_equiv (interp_genpos rows' (own_pairs rows')) (fin_gens rows') /\
+  (forall c i x, has_chr rows' c = true ->
+     let k := knots rows' c in (S i < length k)%nat -> (fst (nth i k (0%Z, 0%Q)) <= x <= fst (nth (S i) k (0%Z, 0%Q)))%Z ->
+     exists g, interp_pos rows' (c, x) = Fin g /\
+       (g == chord x (fst (nth i k (0%Z, 0%Q))) (snd (nth i k (0%Z, 0%Q))) (fst (nth (S i) k (0%Z, 0%Q))) (snd (nth (S i) k (0%Z, 0%Q))))%Q) /\
+  (forall c x, has_chr rows' c = false -> interp_pos rows' (c, x) = NaN).
+Proof. exact interp_after_select. Qed.
+Print Assumptions C11_interp_after_any_selection.
+
+(** scaling every genetic position of a chromosome by s scales every interpolated (and extrapolated) position by s *)
+Theorem C11_interp_scale_covariant : forall s pts x, (2 <= length pts)%nat -> (interp1 (scale_knots s pts) x == s * interp1 pts x)%Q.
+Proof. exact interp1_scale. Qed.
+Print Assumptions C11_interp_scale_covariant.
+
+(** translating all physical positions of a chromosome and the query by t leaves the interpolated position unchanged *)
+Theorem C11_interp_shift_invariant : forall t pts x, (2 <= length pts)%nat -> (interp1 (shift_knots t pts) (x + t) == interp1 pts x)%Q.
+Proof. exact interp1_shift. Qed.
+Print Assumptions C11_interp_shift_invariant.
+
+(** the sequential distances of the window [ast:asp] of a query are the sequential distances of the sliced query: the whole query
+    is interpolated marker by marker and sliced once *)
+Theorem C11_gdist1p_slice_commutes : forall rows query ast asp, gdist1p rows query ast asp = gdist1p rows (pyslice ast asp query) None None.
+Proof. exact gdist1p_slice_commutes. Qed.
+Print Assumptions C11_gdist1p_slice_commutes.
+
+Example C11_laws_hyps_satisfiable :
+  (distinct_pos wit_rd /\ two_markers (select_rows wit_rd (congruence wit_rd))) /\ (2 <= length [(5%Z, 0%Q); (9%Z, (1 # 4)%Q)])%nat.
+Proof.
+  split; [|apply le_n]. destruct wit_rd_wf as ((_ & D & _) & T & _). split; [exact D | exact T].
+Qed.
